@@ -3,6 +3,12 @@
  * Protocol: see lean/Percival/Driver/Parsers.lean.  Every input is copied into a heap block of EXACTLY its size
  * (C strings: exactly strlen + 1), every output buffer has exactly the documented size, so ASan sees any access
  * past either end.  json.c is included for white-box access to skip_value.
+ *
+ * -DHC_BLACKBOX (used when the white-box build no longer compiles, e.g. after skip_value was renamed): json.c is
+ * compiled separately and only json.h is used; `skipv` / `skipvv` (calls of the static skip_value) answer `skip` and
+ * are stripped from the cases by the framework (bb_strip_ops).  Nothing else here is white-box: the L2 parts of the
+ * other ops are computed from what the public functions return and are printed in both modes (the framework ignores
+ * them in black-box mode); no library state is reset between cases in either mode.
  */
 #include <sys/socket.h>
 #include <sys/stat.h>
@@ -16,7 +22,11 @@
 
 #include "hcommon.h"
 
+#ifdef HC_BLACKBOX
+#include "json.h"
+#else
 #include "json.c"		/* white box: skip_value */
+#endif
 
 #include "aws_readkeys.h"
 #include "b64encode.h"
@@ -408,8 +418,15 @@ main(void)
 			}
 			if (off > n) {
 				printf("bad-op");
+#ifdef HC_BLACKBOX
+			} else if (1) {
+				(void)r;
+				printf("skip");
+#endif
 			} else {
+#ifndef HC_BLACKBOX
 				r = skip_value(b + off, b + n);
+#endif
 				if (r < b + off || r > b + n)
 					printf("%s OUT-OF-RANGE", hc_tok[0]);
 				else if (hc_ntok == 3)
